@@ -113,7 +113,17 @@ func c06Check(c *c06Ctx, in fmtInput) {
 		b := ImplRun(formatted, o)
 		if a.GoPanic == "" && b.GoPanic == "" && len(a.Phases) == 1 && len(b.Phases) == 1 {
 			pa, pb := a.Phases[0], b.Phases[0]
-			if pa.Class != pb.Class || joinLines(pa.Trace) != joinLines(pb.Trace) {
+			differ := pa.Class != pb.Class || joinLines(pa.Trace) != joinLines(pb.Trace)
+			if pa.Class == "budget" && pb.Class == "budget" {
+				// cut by the yield budget: blank lines are EmptyStmt nodes that yield too, so the two runs
+				// are cut at different points; what they did must agree as far as both got
+				n := len(pa.Trace)
+				if len(pb.Trace) < n {
+					n = len(pb.Trace)
+				}
+				differ = joinLines(pa.Trace[:n]) != joinLines(pb.Trace[:n])
+			}
+			if differ {
 				r.Violate(Violation{Kind: "property", Key: "formatted-program-behaves-differently",
 					Detail: "running the source and running Format() of it differ in outcome class or effect trace", Input: src,
 					Impl: map[string]any{"source": pa.Class, "formatted": pb.Class, "formatted_text": formatted}})
